@@ -86,5 +86,9 @@ Print Assumptions C06_min_point_ok_model.
    include exact ties with observed global costs (which are not monotone along the chain here).  judge = 0: the model
    reproduces every output and the predicates hold. *)
 Example C06_example :
-  judge (CG 6%nat false OSegment [((0%nat, 3%nat), [0x0.0p+0%float; 0x1.5775c544ff263p+0%float; 0x0.0p+0%float]); ((0%nat, 4%nat), [0x0.0p+0%float; 0x1.94c583ada5b52p+0%float; 0x1.43d136248490ep-2%float; 0x0.0p+0%float]); ((0%nat, 5%nat), [0x0.0p+0%float; 0x1.5775c544ff263p+0%float; 0x0.0p+0%float; 0x1.c9f25c5bfeddap-2%float; 0x0.0p+0%float]); ((0%nat, 6%nat), [0x0.0p+0%float; 0x1.0000000000000p+1%float; 0x1.0000000000000p+0%float; 0x1.0000000000000p+0%float; 0x1.0000000000000p+1%float; 0x0.0p+0%float]); ((1%nat, 4%nat), [0x0.0p+0%float; 0x1.c9f25c5bfedd9p-2%float; 0x0.0p+0%float]); ((1%nat, 5%nat), [0x0.0p+0%float; 0x1.0000000000000p+0%float; 0x1.0000000000000p+0%float; 0x0.0p+0%float]); ((1%nat, 6%nat), [0x0.0p+0%float; 0x1.c9f25c5bfedd9p-2%float; 0x0.0p+0%float; 0x1.5775c544ff263p+0%float; 0x0.0p+0%float]); ((2%nat, 5%nat), [0x0.0p+0%float; 0x1.c9f25c5bfedd9p-2%float; 0x0.0p+0%float]); ((2%nat, 6%nat), [0x0.0p+0%float; 0x1.43d136248490fp-2%float; 0x1.94c583ada5b52p+0%float; 0x0.0p+0%float]); ((3%nat, 6%nat), [0x0.0p+0%float; 0x1.5775c544ff263p+0%float; 0x0.0p+0%float])] [] [((0%nat, 3%nat), 0x1.2000000000000p+1%float); ((0%nat, 4%nat), 0x1.71c71c71c71c6p+1%float); ((0%nat, 5%nat), 0x1.4000000000000p+1%float); ((1%nat, 4%nat), 0x1.0000000000000p-2%float); ((1%nat, 5%nat), 0x1.0000000000000p+1%float); ((1%nat, 6%nat), 0x1.4000000000000p+1%float); ((2%nat, 5%nat), 0x1.0000000000000p-2%float); ((2%nat, 6%nat), 0x1.71c71c71c71c9p+1%float); ((3%nat, 6%nat), 0x1.2000000000000p+1%float)] [([0%nat; 5%nat], 0x1.dddddddddddddp-2%float); ([0%nat; 1%nat; 5%nat], 0x1.4e5e0a72f0539p-3%float); ([0%nat; 1%nat; 4%nat; 5%nat], 0x1.5555555555555p-3%float); ([0%nat; 1%nat; 2%nat; 4%nat; 5%nat], 0x1.0410410410410p-5%float); ([0%nat; 1%nat; 2%nat; 3%nat; 4%nat; 5%nat], 0x0.0p+0%float)] [[0%nat; 5%nat]; [0%nat; 1%nat; 5%nat]; [0%nat; 1%nat; 4%nat; 5%nat]; [0%nat; 1%nat; 2%nat; 4%nat; 5%nat]; [0%nat; 1%nat; 2%nat; 3%nat; 4%nat; 5%nat]] [QGrdp 0x1.ddddddddddddep-2%float (Some ([0%nat; 5%nat], [(0%nat, 4%nat)])); QMp 0x1.ddddddddddddep-2%float 3%nat (Some ([0%nat; 1%nat; 5%nat], [(0%nat, 0%nat); (1%nat, 3%nat)])); QMp 0x1.ddddddddddddep-2%float 5%nat (Some ([0%nat; 1%nat; 2%nat; 4%nat; 5%nat], [(0%nat, 0%nat); (1%nat, 0%nat); (2%nat, 1%nat); (4%nat, 0%nat)])); QGrdp 0x1.5555555555555p-3%float (Some ([0%nat; 1%nat; 5%nat], [(0%nat, 0%nat); (1%nat, 3%nat)])); QMp 0x1.5555555555555p-3%float 4%nat (Some ([0%nat; 1%nat; 4%nat; 5%nat], [(0%nat, 0%nat); (1%nat, 2%nat); (4%nat, 0%nat)])); QMin [0x1.4e5e0a72f0538p-3%float; 0x1.0000000000000p-1%float; 0x1.0000000000000p-1%float; 0x1.5555555555555p-3%float; 0x0.0000000000001p-1022%float] 2%nat (Some ([0%nat; 5%nat], [(0%nat, 4%nat)])); QMin [0x1.4e5e0a72f0538p-3%float] 2%nat (Some ([0%nat; 1%nat; 2%nat; 4%nat; 5%nat], [(0%nat, 0%nat); (1%nat, 0%nat); (2%nat, 1%nat); (4%nat, 0%nat)])); QMin [0x1.5555555555554p-3%float; 0x1.5555555555554p-3%float] 2%nat (Some ([0%nat; 1%nat; 5%nat], [(0%nat, 0%nat); (1%nat, 3%nat)]))]) = 0%Z.
+  judge (CG 6%nat false OSegment [(0x0.0p+0%float, 0x1.8000000000000p+1%float); (0x1.0000000000000p+0%float, 0x1.0000000000000p+0%float); (0x1.0000000000000p+1%float, 0x1.0000000000000p+1%float); (0x1.8000000000000p+1%float, 0x1.0000000000000p+1%float); (0x1.0000000000000p+2%float, 0x1.0000000000000p+0%float); (0x1.4000000000000p+2%float, 0x1.8000000000000p+1%float)] [((0%nat, 3%nat), [0x0.0p+0%float; 0x1.5775c544ff263p+0%float; 0x0.0p+0%float]); ((0%nat, 4%nat), [0x0.0p+0%float; 0x1.94c583ada5b52p+0%float; 0x1.43d136248490ep-2%float; 0x0.0p+0%float]); ((0%nat, 5%nat), [0x0.0p+0%float; 0x1.5775c544ff263p+0%float; 0x0.0p+0%float; 0x1.c9f25c5bfeddap-2%float; 0x0.0p+0%float]); ((0%nat, 6%nat), [0x0.0p+0%float; 0x1.0000000000000p+1%float; 0x1.0000000000000p+0%float; 0x1.0000000000000p+0%float; 0x1.0000000000000p+1%float; 0x0.0p+0%float]); ((1%nat, 4%nat), [0x0.0p+0%float; 0x1.c9f25c5bfedd9p-2%float; 0x0.0p+0%float]); ((1%nat, 5%nat), [0x0.0p+0%float; 0x1.0000000000000p+0%float; 0x1.0000000000000p+0%float; 0x0.0p+0%float]); ((1%nat, 6%nat), [0x0.0p+0%float; 0x1.c9f25c5bfedd9p-2%float; 0x0.0p+0%float; 0x1.5775c544ff263p+0%float; 0x0.0p+0%float]); ((2%nat, 5%nat), [0x0.0p+0%float; 0x1.c9f25c5bfedd9p-2%float; 0x0.0p+0%float]); ((2%nat, 6%nat), [0x0.0p+0%float; 0x1.43d136248490fp-2%float; 0x1.94c583ada5b52p+0%float; 0x0.0p+0%float]); ((3%nat, 6%nat), [0x0.0p+0%float; 0x1.5775c544ff263p+0%float; 0x0.0p+0%float])] [] [((0%nat, 3%nat), 0x1.2000000000000p+1%float); ((0%nat, 4%nat), 0x1.71c71c71c71c6p+1%float); ((0%nat, 5%nat), 0x1.4000000000000p+1%float); ((1%nat, 4%nat), 0x1.0000000000000p-2%float); ((1%nat, 5%nat), 0x1.0000000000000p+1%float); ((1%nat, 6%nat), 0x1.4000000000000p+1%float); ((2%nat, 5%nat), 0x1.0000000000000p-2%float); ((2%nat, 6%nat), 0x1.71c71c71c71c9p+1%float); ((3%nat, 6%nat), 0x1.2000000000000p+1%float)] [([0%nat; 5%nat], 0x1.dddddddddddddp-2%float); ([0%nat; 1%nat; 5%nat], 0x1.4e5e0a72f0539p-3%float); ([0%nat; 1%nat; 4%nat; 5%nat], 0x1.5555555555555p-3%float); ([0%nat; 1%nat; 2%nat; 4%nat; 5%nat], 0x1.0410410410410p-5%float); ([0%nat; 1%nat; 2%nat; 3%nat; 4%nat; 5%nat], 0x0.0p+0%float)] [[0%nat; 5%nat]; [0%nat; 1%nat; 5%nat]; [0%nat; 1%nat; 4%nat; 5%nat]; [0%nat; 1%nat; 2%nat; 4%nat; 5%nat]; [0%nat; 1%nat; 2%nat; 3%nat; 4%nat; 5%nat]] [QGrdp 0x1.ddddddddddddep-2%float (Some ([0%nat; 5%nat], [(0%nat, 4%nat)])); QMp 0x1.ddddddddddddep-2%float 3%nat (Some ([0%nat; 1%nat; 5%nat], [(0%nat, 0%nat); (1%nat, 3%nat)])); QMp 0x1.ddddddddddddep-2%float 5%nat (Some ([0%nat; 1%nat; 2%nat; 4%nat; 5%nat], [(0%nat, 0%nat); (1%nat, 0%nat); (2%nat, 1%nat); (4%nat, 0%nat)])); QGrdp 0x1.5555555555555p-3%float (Some ([0%nat; 1%nat; 5%nat], [(0%nat, 0%nat); (1%nat, 3%nat)])); QMp 0x1.5555555555555p-3%float 4%nat (Some ([0%nat; 1%nat; 4%nat; 5%nat], [(0%nat, 0%nat); (1%nat, 2%nat); (4%nat, 0%nat)])); QMin [0x1.4e5e0a72f0538p-3%float; 0x1.0000000000000p-1%float; 0x1.0000000000000p-1%float; 0x1.5555555555555p-3%float; 0x0.0000000000001p-1022%float] 2%nat (Some ([0%nat; 5%nat], [(0%nat, 4%nat)])); QMin [0x1.4e5e0a72f0538p-3%float] 2%nat (Some ([0%nat; 1%nat; 2%nat; 4%nat; 5%nat], [(0%nat, 0%nat); (1%nat, 0%nat); (2%nat, 1%nat); (4%nat, 0%nat)])); QMin [0x1.5555555555554p-3%float; 0x1.5555555555554p-3%float] 2%nat (Some ([0%nat; 1%nat; 5%nat], [(0%nat, 0%nat); (1%nat, 3%nat)]))]) = 0%Z.
+Proof. vm_compute. reflexivity. Qed.
+(* same-object stream: three configurations with different metrics queried one after the other on one array object *)
+Example C06_example_seq :
+  judge (CSeq [PG 5%nat false OSegment [(0x0.0p+0%float, 0x1.0000000000000p+2%float); (0x1.0000000000000p+0%float, 0x1.8000000000000p+2%float); (0x1.0000000000000p+1%float, 0x0.0p+0%float); (0x1.8000000000000p+1%float, 0x1.0000000000000p+0%float); (0x1.0000000000000p+2%float, 0x0.0p+0%float)] [((0%nat, 5%nat), [0x0.0p+0%float; 0x1.1e3779b97f4a7p+1%float; 0x1.6a09e667f3bccp+0%float; 0x0.0p+0%float; 0x0.0p+0%float]); ((1%nat, 5%nat), [0x0.0p+0%float; 0x1.c9f25c5bfeddap+0%float; 0x1.c9f25c5bfeddcp-2%float; 0x0.0p+0%float]); ((2%nat, 5%nat), [0x0.0p+0%float; 0x1.0000000000000p+0%float; 0x0.0p+0%float])] [] [((1%nat, 5%nat), 0x1.1000000000000p+4%float); ((2%nat, 5%nat), 0x1.0000000000000p+0%float)] [([0%nat; 4%nat], 0x1.fc6c495f85237p+52%float); ([0%nat; 1%nat; 4%nat], 0x1.d01fe3eaa494cp+53%float); ([0%nat; 1%nat; 2%nat; 4%nat], 0x1.83091e6a7f7e6p-2%float); ([0%nat; 1%nat; 2%nat; 3%nat; 4%nat], 0x0.0p+0%float)] [[0%nat; 4%nat]; [0%nat; 1%nat; 4%nat]; [0%nat; 1%nat; 2%nat; 4%nat]; [0%nat; 1%nat; 2%nat; 3%nat; 4%nat]] [QGrdp 0x1.0624dd2f1a9fcp-10%float (Some ([0%nat; 1%nat; 2%nat; 3%nat; 4%nat], [(0%nat, 0%nat); (1%nat, 0%nat); (2%nat, 0%nat); (3%nat, 0%nat)])); QMp 0x1.0624dd2f1a9fcp-10%float 4%nat (Some ([0%nat; 1%nat; 2%nat; 3%nat; 4%nat], [(0%nat, 0%nat); (1%nat, 0%nat); (2%nat, 0%nat); (3%nat, 0%nat)])); QGrdp 0x1.d01fe3eaa494dp+53%float (Some ([0%nat; 4%nat], [(0%nat, 3%nat)])); QMp 0x1.d01fe3eaa494dp+53%float 3%nat (Some ([0%nat; 1%nat; 4%nat], [(0%nat, 0%nat); (1%nat, 2%nat)]))]; PG 5%nat false OSegment [(0x0.0p+0%float, 0x1.0000000000000p+2%float); (0x1.0000000000000p+0%float, 0x1.8000000000000p+2%float); (0x1.0000000000000p+1%float, 0x0.0p+0%float); (0x1.8000000000000p+1%float, 0x1.0000000000000p+0%float); (0x1.0000000000000p+2%float, 0x0.0p+0%float)] [((0%nat, 5%nat), [0x0.0p+0%float; 0x1.1e3779b97f4a7p+1%float; 0x1.6a09e667f3bccp+0%float; 0x0.0p+0%float; 0x0.0p+0%float]); ((1%nat, 5%nat), [0x0.0p+0%float; 0x1.c9f25c5bfeddap+0%float; 0x1.c9f25c5bfeddcp-2%float; 0x0.0p+0%float]); ((2%nat, 5%nat), [0x0.0p+0%float; 0x1.0000000000000p+0%float; 0x0.0p+0%float])] [] [((1%nat, 5%nat), 0x1.1000000000000p+4%float); ((2%nat, 5%nat), 0x1.0000000000000p+0%float)] [([0%nat; 4%nat], 0x1.1111111111111p-1%float); ([0%nat; 1%nat; 4%nat], 0x1.c71c71c71c71cp-2%float); ([0%nat; 1%nat; 2%nat; 4%nat], 0x1.2492492492492p-2%float); ([0%nat; 1%nat; 2%nat; 3%nat; 4%nat], 0x0.0p+0%float)] [[0%nat; 4%nat]; [0%nat; 1%nat; 4%nat]; [0%nat; 1%nat; 2%nat; 4%nat]; [0%nat; 1%nat; 2%nat; 3%nat; 4%nat]] [QMp 0x1.2492492492493p-2%float 1%nat (Some ([0%nat; 1%nat; 2%nat; 4%nat], [(0%nat, 0%nat); (1%nat, 0%nat); (2%nat, 1%nat)])); QGrdp 0x1.c71c71c71c71cp-2%float (Some ([0%nat; 1%nat; 2%nat; 4%nat], [(0%nat, 0%nat); (1%nat, 0%nat); (2%nat, 1%nat)])); QMp 0x1.c71c71c71c71cp-2%float 0%nat (Some ([0%nat; 1%nat; 2%nat; 4%nat], [(0%nat, 0%nat); (1%nat, 0%nat); (2%nat, 1%nat)])); QGrdp 0x1.2492492492493p-2%float (Some ([0%nat; 1%nat; 2%nat; 4%nat], [(0%nat, 0%nat); (1%nat, 0%nat); (2%nat, 1%nat)])); QMin [0x1.0000000000000p-1%float; 0x1.47ae147ae147bp-7%float; 0x1.999999999999ap-4%float; 0x1.a36e2eb1c432dp-14%float; 0x1.0000000000000p-1%float] 6%nat (Some ([0%nat; 1%nat; 2%nat; 3%nat; 4%nat], [(0%nat, 0%nat); (1%nat, 0%nat); (2%nat, 0%nat); (3%nat, 0%nat)]))]; PG 5%nat true OArea [(0x0.0p+0%float, 0x1.0000000000000p+2%float); (0x1.0000000000000p+0%float, 0x1.8000000000000p+2%float); (0x1.0000000000000p+1%float, 0x0.0p+0%float); (0x1.8000000000000p+1%float, 0x1.0000000000000p+0%float); (0x1.0000000000000p+2%float, 0x0.0p+0%float)] [((0%nat, 5%nat), [0x0.0p+0%float; 0x1.0f876ccdf6cd9p+1%float; 0x1.6a09e667f3bccp+0%float; 0x0.0p+0%float; 0x0.0p+0%float]); ((1%nat, 5%nat), [0x0.0p+0%float; 0x1.c9f25c5bfedd9p+0%float; 0x1.c9f25c5bfedd9p-2%float; 0x0.0p+0%float]); ((2%nat, 5%nat), [0x0.0p+0%float; 0x1.0000000000000p+0%float; 0x0.0p+0%float])] [] [] [([0%nat; 4%nat], 0x1.18e38e38e38e4p-1%float); ([0%nat; 1%nat; 4%nat], 0x1.a38e38e38e38ep-2%float); ([0%nat; 1%nat; 2%nat; 4%nat], 0x1.ee38e38e38e39p-1%float); ([0%nat; 1%nat; 2%nat; 3%nat; 4%nat], 0x1.0000000000000p+0%float)] [[0%nat; 4%nat]; [0%nat; 1%nat; 4%nat]; [0%nat; 1%nat; 2%nat; 4%nat]; [0%nat; 1%nat; 2%nat; 3%nat; 4%nat]] [QMp 0x1.ee38e38e38e3ap-1%float 3%nat (Some ([0%nat; 1%nat; 2%nat; 3%nat; 4%nat], [(0%nat, 0%nat); (1%nat, 0%nat); (2%nat, 0%nat); (3%nat, 0%nat)])); QGrdp 0x1.18e38e38e38e4p-1%float (Some ([0%nat; 4%nat], [(0%nat, 3%nat)])); QGrdp 0x1.ee38e38e38e3ap-1%float (Some ([0%nat; 1%nat; 2%nat; 3%nat; 4%nat], [(0%nat, 0%nat); (1%nat, 0%nat); (2%nat, 0%nat); (3%nat, 0%nat)])); QMp 0x1.18e38e38e38e4p-1%float 2%nat (Some ([0%nat; 4%nat], [(0%nat, 3%nat)]))]]) = 0%Z.
 Proof. vm_compute. reflexivity. Qed.
